@@ -196,6 +196,15 @@ def oracle_failed_write(ctx, totals, fail, sched_list, res):
         ctx.violation("deadlock-or-blocked-sender", case, observed=res["deadlock"], expected="every sender returns", what="a sender blocked or the run did not terminate")
         return
     exp = [m for m in expected_msgs(totals, {}) if m not in fail]
+    # who got the error: the thread that held the lock - not necessarily the owner of the message whose write failed (F52's consequence
+    # for C08: a sender whose own frame went out sees an exception, the owner of the failed frame returns normally)
+    for tid_, err in res["errors"].items():
+        try:
+            t_ = int(tid_)
+        except ValueError:
+            continue
+        own_failed = any(m // 100 == t_ for m in fail)
+        ctx.count("failed-write:error-raised-in-" + ("the-failed-message's-own-sender" if own_failed else "another-sender-whose-own-message-was-transmitted"))
     if res["queue"]:
         ctx.violation("message-stranded-after-a-failed-write", case, observed={"wire": res["wire"], "queue": res["queue"], "errors": res["errors"]}, expected=sorted(exp),
                       what="a write failed (stream still open): the lock holder left _send through the exception without re-testing the queue, and a message "
